@@ -139,10 +139,14 @@ class Ctx:
         base = os.path.join(VERIF, '.cache')
         os.makedirs(base, exist_ok=True)
         d = os.path.join(base, 'xdg-' + self.repo_digest())
-        for e in os.listdir(base):
-            if e.startswith('xdg-') and os.path.join(base, e) != d:
-                shutil.rmtree(os.path.join(base, e), ignore_errors=True)
         os.makedirs(d, exist_ok=True)
+        os.utime(d, None)
+        # keep the few most recently used digests (concurrent checks on scratch worktrees
+        # must not wipe each other's caches); older ones are removed to bound disk use
+        olds = sorted((e for e in os.listdir(base) if e.startswith('xdg-') and os.path.join(base, e) != d),
+                      key=lambda e: os.path.getmtime(os.path.join(base, e)), reverse=True)
+        for e in olds[5:]:
+            shutil.rmtree(os.path.join(base, e), ignore_errors=True)
         return d
 
     def lake_build(self, targets, what='lake build'):
